@@ -384,3 +384,26 @@ Example lex_example :
   LDone [mk (IToken TName) 0 1; mk (IComment true) 2 5; mk (IToken (TStr [10%N])) 8 4;
          mk (IToken (TRune 59%N)) 12 1; mk (IToken TEof) 13 0].
 Proof. vm_compute. reflexivity. Qed.
+
+(* the three C11 statements composed: an accepted input IS the optional byte order mark followed by the
+   concatenation, in order, of each item's leading whitespace and raw text *)
+Lemma bom_only_exception_lemma : forall data,
+  strip_bom data = data \/ data = [239; 187; 191]%N ++ strip_bom data.
+Proof.
+  intros data. unfold strip_bom. destruct data as [|a [|b [|c r]]]; auto.
+  destruct (a =? 239)%N eqn:Ea; destruct (b =? 187)%N eqn:Eb; destruct (c =? 191)%N eqn:Ec; cbn; auto.
+  apply N.eqb_eq in Ea, Eb, Ec. subst. right. reflexivity.
+Qed.
+
+Theorem lex_rebuilds_source_lemma : forall data items, lex data = LDone items ->
+  exists cs, chunks_ok 0 cs items /\
+             (data = flatten_chunks cs \/ data = [239; 187; 191]%N ++ flatten_chunks cs) /\
+             exists e, last items e = mk (IToken TEof) (length (strip_bom data)) 0.
+Proof.
+  intros data items H. apply lex_tiles_lemma in H. apply tiles_rebuild_lemma in H.
+  destruct H as (cs & Hc & Hf & e & He). exists cs. split; [exact Hc|]. split.
+  - destruct (bom_only_exception_lemma data) as [E|E].
+    + left. rewrite <- E. exact Hf.
+    + right. rewrite <- Hf. exact E.
+  - exists e. exact He.
+Qed.
